@@ -316,23 +316,43 @@ func classify(p []pt, problem string) string {
 	return "general"
 }
 
-func checkTriangulate(r *ev.Run, p []pt) {
+// pow2 parses a placement "pow2:k": coordinates multiplied by 2^k (exact in
+// floating point, so the integer oracle still applies after dividing back).
+func pow2(place string) (float64, bool) {
+	var k int
+	if n, _ := fmt.Sscanf(place, "pow2:%d", &k); n == 1 {
+		return math.Ldexp(1, k), true
+	}
+	return 1, false
+}
+
+func checkTriangulate(r *ev.Run, p []pt, place string) {
+	sc, scaled := pow2(place)
 	poly := make([]model2d.Coord, len(p))
 	for i, v := range p {
-		poly[i] = model2d.XY(float64(v.x), float64(v.y))
+		poly[i] = model2d.XY(float64(v.x)*sc, float64(v.y)*sc)
 	}
-	c := polyCase{"Triangulate", toLoops([][]pt{p}), ""}
+	c := polyCase{"Triangulate", toLoops([][]pt{p}), place}
+	suffix := ""
+	if scaled {
+		suffix = "/scaled"
+	}
 	var ts [][3]model2d.Coord
 	if pm := ev.Try(func() { ts = model2d.Triangulate(poly) }); pm != "" {
-		r.Violation("Triangulate/panic/"+classify(p, pm), "panic: "+pm, c)
+		r.Violation("Triangulate/panic/"+classify(p, pm)+suffix, "panic: "+pm+" (coordinates x "+fmt.Sprint(sc)+")", c)
 		return
+	}
+	for i := range ts {
+		for k := 0; k < 3; k++ {
+			ts[i][k] = ts[i][k].Scale(1 / sc)
+		}
 	}
 	it, msg := convTris(ts, true)
 	if msg == "" {
 		msg = judge([][]pt{p}, it, false)
 	}
 	if msg != "" {
-		r.Violation("Triangulate/wrong/"+classify(p, msg), msg, c)
+		r.Violation("Triangulate/wrong/"+classify(p, msg)+suffix, msg+" (coordinates x "+fmt.Sprint(sc)+")", c)
 	}
 }
 
@@ -370,6 +390,10 @@ func checkTriangulateMesh(r *ev.Run, loops [][]pt, place string) {
 	case "shift":
 		f = func(p pt) model2d.Coord { return model2d.XY(float64(p.x+100), float64(p.y-37)) }
 		inv = func(c model2d.Coord) model2d.Coord { return model2d.XY(c.X-100, c.Y+37) }
+	case "pow2:-10", "pow2:-14", "pow2:10":
+		sc, _ := pow2(place)
+		f = func(p pt) model2d.Coord { return model2d.XY(float64(p.x)*sc, float64(p.y)*sc) }
+		inv = func(c model2d.Coord) model2d.Coord { return c.Scale(1 / sc) }
 	case "generic":
 		cs, sn := math.Cos(0.3), math.Sin(0.3)
 		f = func(p pt) model2d.Coord {
@@ -603,7 +627,7 @@ func main() {
 		loops := fromLoops(c.Loops)
 		switch c.API {
 		case "Triangulate":
-			checkTriangulate(r, loops[0])
+			checkTriangulate(r, loops[0], c.Place)
 		case "TriangulateFace":
 			var pl int
 			fmt.Sscanf(c.Place, "plane%d", &pl)
@@ -620,14 +644,14 @@ func main() {
 	if r.Thorough() {
 		maxN = 6
 	}
-	r.Rule(fmt.Sprintf("every vertex sequence of length 3..%d on the %dx%d integer grid that forms a simple polygon (so every start vertex and both directions) through Triangulate and TriangulateFace (5 planes); every such polygon up to rotation/reversal through TriangulateMesh at 4 placements and ProfileMesh; "+
+	r.Rule(fmt.Sprintf("every vertex sequence of length 3..%d on the %dx%d integer grid that forms a simple polygon (so every start vertex and both directions) through Triangulate and TriangulateFace (5 planes); every such polygon up to rotation/reversal through TriangulateMesh at 7 placements (identity, 90 degree rotation, integer shift, generic rotation, coordinates x 2^-10, 2^-14, 2^10 - exact scalings, the integer oracle applies after dividing back), through Triangulate at the three scalings, and ProfileMesh; "+
 		"every outer polygon with n <= 4 scaled x4 with every 2x2 square / right-triangle hole at integer positions strictly inside (and pairs of disjoint holes, nested islands in the thorough tier). Oracle exact in integers: vertex subset, non-degenerate, inside (centroid, edge midpoints, no proper crossing of the boundary), pairwise interior-disjoint, areas sum to the region area, clockwise where documented. non-trivial = polygons with a reflex vertex / regions with holes", maxN, gw, gh))
 	r.Assume("grid polygons with integer coordinates; generic-rotation placement is compared after mapping back with 1e-9 tolerance")
 	r.Isolate("triangulate", func() {
 		var nt, total int64
 		for n := 3; n <= maxN; n++ {
 			enumPolys(gw, gh, n, false, func(p []pt) {
-				checkTriangulate(r, p)
+				checkTriangulate(r, p, "")
 				atomic.AddInt64(&total, 1)
 				if hasReflex(p) {
 					atomic.AddInt64(&nt, 1)
@@ -664,8 +688,12 @@ func main() {
 		var total, nt int64
 		for n := 3; n <= maxN; n++ {
 			enumPolys(gw, gh, n, true, func(p []pt) {
-				for _, place := range []string{"", "rot90", "shift", "generic"} {
+				for _, place := range []string{"", "rot90", "shift", "generic", "pow2:-10", "pow2:-14", "pow2:10"} {
 					checkTriangulateMesh(r, [][]pt{p}, place)
+					atomic.AddInt64(&total, 1)
+				}
+				for _, place := range []string{"pow2:-10", "pow2:-14", "pow2:10"} {
+					checkTriangulate(r, p, place)
 					atomic.AddInt64(&total, 1)
 				}
 				if hasReflex(p) {
